@@ -63,6 +63,8 @@ pub enum Job {
     /// default float / value tables (global lazily initialised regexes)
     ParseF64(usize),
     ParseVal(usize),
+    /// the value type over 64-bit integers (a second instantiation of the generic operators)
+    ParseVal64(usize),
 }
 
 fn point(p: u32, n: usize) -> Vec<Sym> {
@@ -78,7 +80,8 @@ fn expected(text: &str, t: &Table, p: u32) -> Nf {
 
 const TEXTS_W: [&str; 3] = ["2*3*x+y+y", "2*3*x+y+y*x", "1+2+y*x*y-x"];
 const F64_TEXTS: [&str; 2] = ["sin(x)*2+max(x,1)", "{a b}^2-PI"];
-const VAL_TEXTS: [&str; 2] = ["1 if x > 2 else to_int(2.5)", "[1,2,3].1+x"];
+const VAL_TEXTS: [&str; 3] = ["1 if x > 2 else to_int(2.5)", "[1,2,3].1+x", "fact(12+x)"];
+const VAL64_TEXTS: [&str; 2] = ["fact(14+x)", "2^(61+x)-1+fact(13)"];
 
 const BIG_SIZES: [usize; 2] = [2050, 2300];
 fn big_text(k: usize) -> String {
@@ -219,9 +222,20 @@ pub fn run_job(job: &Job, shared: &Shared, shared_text: &'static str, sharedw: &
             let e = exmex::parse_val::<i32, f64>(VAL_TEXTS[*i]).map_err(|e| e.msg().to_string())?;
             let v = e.eval(&[exmex::Val::Int(1)]).map_err(|e| e.msg().to_string())?;
             let got = format!("{v:?}");
-            let want = ["Int(2)", "Float(3.0)"][*i];
-            if got != want {
+            // fact(13) does not fit into 32 bits: an error value
+            let want = ["Int(2)", "Float(3.0)", "Error("][*i];
+            if !got.starts_with(want) {
                 return Err(format!("{:?} evaluates to {got} instead of {want}", VAL_TEXTS[*i]));
+            }
+            Ok(format!("{job:?}={}", want))
+        }
+        Job::ParseVal64(i) => {
+            let e = exmex::parse_val::<i64, f64>(VAL64_TEXTS[*i]).map_err(|e| e.msg().to_string())?;
+            let v = e.eval(&[exmex::Val::Int(1)]).map_err(|e| e.msg().to_string())?;
+            let got = format!("{v:?}");
+            let want = ["Int(1307674368000)", "Int(4611686024654408703)"][*i];
+            if got != want {
+                return Err(format!("{:?} over Val<i64,f64> evaluates to {got} instead of {want}", VAL64_TEXTS[*i]));
             }
             Ok(format!("{job:?}={got}"))
         }
@@ -243,6 +257,7 @@ pub fn bodies() -> Vec<Body> {
         Body { name: "B1-eval-shared-deep", shared_text: TEXTS[0], shared_deep: true, threads: vec![vec![EvalShared(0), EvalShared(1)], vec![EvalShared(2), EvalShared(3)]] },
         Body { name: "B2-parse-same-and-different", shared_text: TEXTS[3], shared_deep: false, threads: vec![vec![ParseEval(0, 0, false, 0), ParseEval(4, 1, true, 1)], vec![ParseEval(4, 1, false, 2), ParseEval(4, 0, true, 3)]] },
         Body { name: "B2-parse-default-tables", shared_text: TEXTS[3], shared_deep: false, threads: vec![vec![ParseEval(2, 0, false, 0), ParseVal(0), ParseF64(0)], vec![ParseF64(1), ParseEval(2, 1, false, 1), ParseVal(1)]] },
+        Body { name: "B2-value-type-two-integer-widths", shared_text: TEXTS[3], shared_deep: false, threads: vec![vec![ParseVal(2), ParseVal64(0)], vec![ParseVal64(1), ParseVal(2)]] },
         Body { name: "B3-convert-clone-while-evaluating", shared_text: TEXTS[1], shared_deep: false, threads: vec![vec![CloneConvert(0)], vec![EvalShared(1), EvalShared(2)]] },
         Body { name: "B4-uncompiled-shared-evalvec-and-compiled-clones", shared_text: TEXTS[3], shared_deep: false, threads: vec![vec![EvalVecW(0), CompileCloneW(1)], vec![CompileCloneW(2), EvalVecW(3)]] },
         Body { name: "B1-three-threads", shared_text: TEXTS[2], shared_deep: false, threads: vec![vec![EvalShared(0)], vec![EvalShared(1)], vec![ParseEval(2, 1, false, 2)]] },
@@ -477,7 +492,7 @@ fn fresh_process_replays(bi: usize, rep: &mut Report) {
 
 pub fn run(tier: Tier) -> i32 {
     let mut rep = Report::new("C20", tier);
-    rep.rule = "schedules: real exmex code on shuttle threads under a preemption-bounded DFS scheduler (scheduling point = every call-back into the harness data type / operator factory / literal matcher), all schedules with <= b preemptions, b iterated 0,1,2(,3); sequential histories: two operator tables over the same data type with equally many operators in different slots and a prefix-related operator pair (`*`, `**`); all call sequences up to the length bound over 16 jobs (incl. two shared expressions of 2050 / 2300 operands) in one process; observations must equal the schedule-independent reference; distinct = schedules / histories; non-trivial = schedule with at least one preemption".into();
+    rep.rule = "schedules: real exmex code on shuttle threads under a preemption-bounded DFS scheduler (scheduling point = every call-back into the harness data type / operator factory / literal matcher), all schedules with <= b preemptions, b iterated 0,1,2(,3); sequential histories: two operator tables over the same data type with equally many operators in different slots and a prefix-related operator pair (`*`, `**`); all call sequences up to the length bound over 17 jobs (value type over 32- and 64-bit integers) (incl. two shared expressions of 2050 / 2300 operands) in one process; observations must equal the schedule-independent reference; distinct = schedules / histories; non-trivial = schedule with at least one preemption".into();
     rep.assumptions = vec![
         "code between two call-backs runs atomically; lazy_static's Once is trusted (who initialises first is enumerated)".into(),
         "Send + Sync of FlatEx / DeepEx is asserted at compile time (harness and /verif/probe)".into(),
@@ -546,10 +561,11 @@ pub fn run(tier: Tier) -> i32 {
     }
     fresh_process_replays(3, &mut rep);
     fresh_process_replays(2, &mut rep);
+    fresh_process_replays(4, &mut rep);
     // sequential histories
     use Job::*;
-    let jobs = vec![EvalShared(0), EvalVecShared(1), ParseEval(0, 0, false, 0), ParseEval(0, 1, false, 1), ParseEval(4, 0, true, 2), ParseEval(4, 1, true, 3), ParseEval(1, 1, false, 0), ParseEval(2, 0, true, 1), CloneConvert(2), EvalVecW(0), CompileCloneW(1), ParseF64(0), ParseVal(0), ParseVal(1), EvalBig(0, 0), EvalBig(1, 1)];
+    let jobs = vec![EvalShared(0), EvalVecShared(1), ParseEval(0, 0, false, 0), ParseEval(0, 1, false, 1), ParseEval(4, 0, true, 2), ParseEval(4, 1, true, 3), ParseEval(1, 1, false, 0), ParseEval(2, 0, true, 1), CloneConvert(2), EvalVecW(0), CompileCloneW(1), ParseF64(0), ParseVal(0), ParseVal(2), ParseVal64(0), EvalBig(0, 0), EvalBig(1, 1)];
     let m = Seq { jobs: Arc::new(jobs), max_len: if tier.thorough() { 5 } else { 4 } };
-    explore(m, &mut rep, "c20", "sequential call histories over 16 jobs");
+    explore(m, &mut rep, "c20", "sequential call histories over 17 jobs (value type over 32- and 64-bit integers)");
     rep.finish()
 }
